@@ -6,6 +6,7 @@
 import IgrisModel.C20.Order
 import IgrisModel.C20.EventLemmas
 import IgrisModel.C20.SafeQLemmas
+import IgrisModel.C20.Round3
 namespace Igris.C20
 
 /-! ### system lock -/
@@ -581,5 +582,78 @@ theorem save_then_restore {prog q0 s} (h : ReachS prog q0 s) (t : Tid) (ho : s.o
   rw [saveLoop_eq _ _ _ (by simp [hn])]
   have hz : s.count t - (s.depth : Int) = 0 := by omega
   simp [sysRestore, hn, hd, hpos, hz]
+
+
+/-! ## round 3 -/
+
+/-- the enqueue step of wait_current_schedee IS the list function `enq`
+    (`move_front` for a prioritised waiter, `move_back` otherwise) -/
+theorem enqueue_step_is_enq {s s' : State} {t : Tid} {p : Bool} (hpc : s.pc t = .wEnq p)
+    (hs : step false s t = some s') : s'.waitq = enq s.waitq (t, p) := by
+  simp only [step, hpc] at hs
+  cases hs
+  simp [enq, setPc]
+
+/-- "the longest waiting, or the prioritised one", closed form for EVERY arrival
+    sequence (any number of waiters, any combination of priorities): after the
+    waiters `arr` (thread, prioritised?) have enqueued in this order the queue is
+    the prioritised ones, newest first, followed by the ordinary ones in arrival
+    order -/
+theorem wait_queue_is_priority_then_fifo (arr : List (Tid × Bool)) :
+    arr.foldl enq [] =
+      ((arr.filter (fun a => a.2)).reverse.map (·.1)) ++ ((arr.filter (fun a => !a.2)).map (·.1)) := by
+  simpa using enq_foldl arr []
+
+/-- whom the next unwait_one wakes (the head): the LAST prioritised arrival if
+    there is one, otherwise the FIRST arrival -/
+theorem unwait_one_choice (arr : List (Tid × Bool)) :
+    (arr.foldl enq []).head? =
+      match (arr.filter (fun a => a.2)).getLast? with
+      | some a => some a.1
+      | none => (arr.head?).map (·.1) := by
+  rw [wait_queue_is_priority_then_fifo]
+  cases h : (arr.filter (fun a => a.2)).getLast? with
+  | none =>
+    have hn : arr.filter (fun a => a.2) = [] := List.getLast?_eq_none_iff.mp h
+    have hall : arr.filter (fun a => !a.2) = arr := by
+      rw [List.filter_eq_self]
+      intro a ha
+      have : a ∉ arr.filter (fun a => a.2) := by rw [hn]; simp
+      simpa [List.mem_filter, ha] using this
+    simp [hn, hall]
+  | some a =>
+    have hne : arr.filter (fun a => a.2) ≠ [] := by
+      intro e; rw [e] at h; cases h
+    obtain ⟨l, b, hb⟩ : ∃ l b, arr.filter (fun a => a.2) = l ++ [b] :=
+      ⟨_, _, (List.dropLast_concat_getLast hne).symm⟩
+    rw [hb] at h
+    simp at h
+    simp [hb, h]
+example : [(0, false), (1, true), (2, false), (3, true)].foldl enq [] = [3, 1, 0, 2] := by decide
+
+/-- the wait queue is modified by exactly two steps of the library: the enqueue
+    of wait_current_schedee and the unlink of unwait_one / unwait_all (every other
+    step of every thread, and every spurious return, leaves it as it is) -/
+theorem waitq_modified_only_by_enqueue_and_unlink {s s' : State} {a : Act}
+    (hs : act false s a = some s') (hq : s'.waitq ≠ s.waitq) :
+    ∃ t, a = .run t ∧ ((∃ p, s.pc t = .wEnq p) ∨ (∃ f al, s.pc t = .uUnlink f al)) := by
+  cases a with
+  | run t => exact ⟨t, rfl, step_changes_waitq hs hq⟩
+  | spur t =>
+    simp only [act, spurious] at hs
+    split at hs
+    · cases hs; exact absurd rfl hq
+    · cases hs
+
+/-- safe_queue with the semaphore posted BEFORE the container operation (the
+    hand-made break `sem.wait(); sem.post(); queue.push(val);`): two pushes
+    overlap and an item is lost (kernel-checked 6-step schedule) -/
+theorem safe_queue_post_before_operation_witness :
+    let prog : SQ.Tid → List SQ.QOp := fun t => if t = 0 then [.push 1] else if t = 1 then [.push 2] else []
+    let mid := SQ.runSchedPF (SQ.init prog []) [0, 0, 1, 1]
+    let s := SQ.runSchedPF (SQ.init prog []) [0, 0, 1, 1, 0, 1]
+    (SQ.InCS (mid.pc 0) = true ∧ SQ.InCS (mid.pc 1) = true) ∧
+    s.pushed = [(0, 1), (1, 2)] ∧ s.queue = [(1, 2)] ∧ s.pushed ≠ s.popped ++ s.queue := by
+  decide
 
 end Igris.C20
